@@ -65,10 +65,11 @@
     * filter_candset: `CandsetValid a c l r` — valid arguments, fewer than 2⁴⁰ candidate rows, every candidate row
       references existing rows (else the real code raises KeyError).
 
-  NOT COVERED: float thresholds under OVERLAP and EDIT_DISTANCE (a float EDIT_DISTANCE threshold is not floored by the
-  filters) (PositionFilter.filter_tables under EDIT_DISTANCE: SSJ/Props/C04_ed.lean; SuffixFilter under EDIT_DISTANCE:
-  SSJ/Props/C04_suffix.lean);
-  join values that are neither strings nor missing.
+  FLOAT thresholds under OVERLAP and EDIT_DISTANCE (finding F9: TypeError before the repair of filter_utils.py): proved
+  safe for the repaired code in SSJ/Props/C04_float.lean (`pair_safe_*_ed_float`, `tables_safe_*_ed_float`,
+  `pair_safe_overlap_float`, `tables_safe_overlap_float`).  (PositionFilter.filter_tables under EDIT_DISTANCE:
+  SSJ/Props/C04_ed.lean; SuffixFilter under EDIT_DISTANCE: SSJ/Props/C04_suffix.lean.)
+  NOT COVERED: join values that are neither strings nor missing.
 -/
 import SSJ.Proofs.EntryFilters
 
